@@ -2,6 +2,10 @@ import BSVerif.Driver.Utf
 import BSVerif.Driver.UtfStream
 import BSVerif.Driver.BinStream
 import BSVerif.Driver.Scope
+import BSVerif.Driver.Num
+import BSVerif.Driver.Csv
+import BSVerif.Driver.Fault
+import BSVerif.Driver.MsgPack
 
 namespace BSVerif.Driver
 
@@ -13,6 +17,10 @@ def dispatch (toks : List String) (impl : Option String) : Option (String × Str
     else if t.startsWith "utf." then Utf.handle toks impl
     else if t.startsWith "bs." then BinStream.handle toks impl
     else if t == "mp.scope" then Scope.handle toks impl
+    else if t.startsWith "mp." then MsgPack.handle toks impl
+    else if t.startsWith "num." then Num.handle toks impl
+    else if t.startsWith "csv." then Csv.handle toks impl
+    else if t.startsWith "fault." then Fault.handle toks impl
     else none
 
 end BSVerif.Driver
